@@ -21,6 +21,7 @@ import (
 type cancelMode struct {
 	name     string
 	deadline time.Duration // 0: explicit cancel() from a canceller thread
+	far      time.Duration // with an explicit cancel: the context also carries this (far) deadline
 }
 
 func harnessThread(name string) bool {
@@ -34,8 +35,17 @@ func harnessThread(name string) bool {
 
 // body10 runs scenario s with a context that is cancelled / expires somewhere.
 func body10(s scn, m cancelMode, readTimeout time.Duration, stall bool) Body {
+	return body10s(s, m, readTimeout, stall, 0)
+}
+
+// body10s: silentAfter > 0 makes the server fall silent after that many script steps (only
+// the cancellation can end the query then).
+func body10s(s scn, m cancelMode, readTimeout time.Duration, stall bool, silentAfter int) Body {
 	return func() Outcome {
 		name := "C10/" + s.name
+		if silentAfter > 0 {
+			name += "-silent"
+		}
 		opt := s.opt
 		opt.ReadTimeout = readTimeout
 		rt := readTimeout
@@ -52,9 +62,15 @@ func body10(s scn, m cancelMode, readTimeout time.Duration, stall bool) Body {
 		}
 		fa := &failAt{}
 		q, steps := s.mk(c, fa)
+		if silentAfter > 0 && silentAfter < len(steps) {
+			steps = steps[:silentAfter]
+		}
 		total := 0
 		for _, st := range steps {
 			total += len(st.Send)
+		}
+		if silentAfter > 0 {
+			total++ // the stream never ends: nothing counts as completely consumed
 		}
 		c.RunPeer("peer", c.HsLen, steps, nil)
 		var ctx context.Context
@@ -69,7 +85,15 @@ func body10(s scn, m cancelMode, readTimeout time.Duration, stall bool) Body {
 			cancelAt = at
 			want = context.DeadlineExceeded
 		} else {
-			ctx, cancel = context.WithCancel(context.Background())
+			parent := context.Background()
+			if m.far > 0 {
+				at := time.Now().Add(m.far)
+				vsched.RegisterTimer(at)
+				var pc context.CancelFunc
+				parent, pc = context.WithDeadline(parent, at)
+				defer pc()
+			}
+			ctx, cancel = context.WithCancel(parent)
 			vsched.Go("canceller", func() {
 				vsched.PointCtxWrite("cancel")
 				cancelAt = time.Now()
@@ -78,9 +102,17 @@ func body10(s scn, m cancelMode, readTimeout time.Duration, stall bool) Body {
 			})
 		}
 		defer cancel()
+		t0 := time.Now()
 		derr := c.Cl.Do(ctx, q)
 		ret := time.Now()
 		ctxErr := ctx.Err()
+		if ctxErr != nil {
+			want = ctxErr
+		}
+		if m.far > 0 && (cancelAt.IsZero() || t0.Add(m.far).Before(cancelAt)) && !ret.Before(t0.Add(m.far)) {
+			// the far deadline came first (a clock deviation): that is the instant the context ended
+			cancelAt, stolenAtCancel = t0.Add(m.far), 0
+		}
 		live := vsched.Live()
 		// stop the canceller from mattering after the call returned
 		consumedAll := c.C.Consumed() >= c.HsIn+total
@@ -109,7 +141,7 @@ func body10(s scn, m cancelMode, readTimeout time.Duration, stall bool) Body {
 			// fake time that passed in clock deviations (a runnable thread being held back) is
 			// not latency of the library
 			stolen := vsched.Stolen() - stolenAtCancel
-			if m.deadline > 0 {
+			if m.deadline > 0 || stolenAtCancel == 0 {
 				stolen = vsched.Stolen()
 			}
 			if d, limit := ret.Sub(cancelAt)-stolen, rt+time.Second+50*time.Millisecond; d > limit {
@@ -256,7 +288,7 @@ func bodyHandshakeCancel(m cancelMode, helloAfter time.Duration, readTimeout tim
 
 // C10 — cancellation ends the query promptly, sends Cancel and closes the connection.
 func C10(c *vk.Ctx) {
-	c.Rule("scenarios {select, insert, streamed insert, LZ4 select, select with telemetry, insert with stalled writes, handshake with prompt / late / no hello} x {explicit cancel() from a canceller thread placed by the scheduler at every point of every other thread, context deadline at fake 1 s and 5 s} x read timeout {3 s, 100 ms} x all schedules (incl. clock steps) up to the deviation bound. distinct_nontrivial = executions.")
+	c.Rule("scenarios {select, insert, streamed insert, LZ4 select, select with telemetry, insert with stalled writes, select and insert during which the server falls silent, handshake with prompt / late / no hello} x {explicit cancel() from a canceller thread placed by the scheduler at every point of every other thread, context deadline at fake 1 s and 5 s, explicit cancel of a context that also carries a 1 h deadline} x read timeout {3 s, 100 ms} x all schedules (incl. clock steps) up to the deviation bound. distinct_nontrivial = executions.")
 	quick := c.Quick()
 	bound := 1
 	if !quick {
@@ -272,7 +304,7 @@ func C10(c *vk.Ctx) {
 		kb    string
 	}
 	var jobs []job
-	modes := []cancelMode{{"cancel", 0}, {"deadline1s", time.Second}, {"deadline5s", 5 * time.Second}}
+	modes := []cancelMode{{"cancel", 0, 0}, {"deadline1s", time.Second, 0}, {"deadline5s", 5 * time.Second, 0}}
 	for _, s := range scs {
 		if !pick[s.name] {
 			continue
@@ -291,6 +323,19 @@ func C10(c *vk.Ctx) {
 			}
 		}
 	}
+	// the server falls silent in the middle of the query; the context carries a far deadline
+	// and is cancelled explicitly (or only has the explicit cancel / a near deadline)
+	farModes := []cancelMode{{"cancel+deadline1h", 0, time.Hour}, {"cancel", 0, 0}, {"deadline5s", 5 * time.Second, 0}}
+	for _, s := range scs {
+		if s.name != "select" && s.name != "insert" {
+			continue
+		}
+		for _, m := range farModes {
+			id := fmt.Sprintf("%s-silent/%s", s.name, m.name)
+			jobs = append(jobs, job{id, body10s(s, m, 0, false, 3), bound, true, "C10/" + s.name + "-silent"})
+		}
+	}
+	jobs = append(jobs, job{"select/cancel+deadline1h/rt=0s", body10(scs[3], farModes[0], 0, false), bound, true, "C10/select"})
 	for _, m := range modes {
 		id := fmt.Sprintf("insert-stall/%s", m.name)
 		jobs = append(jobs, job{id, body10(scs[0], m, 0, true), bound, true, "C10/insert-stall"})
